@@ -4,7 +4,7 @@ CONSTANTS
   Burst = 2
   MaxCalls = 8
   MaxEnt = 4
-  AtomicForget = FALSE
-  RetryDeletes = FALSE
+  AtomicForget = TRUE
+  RetryDeletes = TRUE
 INVARIANTS Inv_C15_BurstBound Inv_NoSpendOnDead
 CHECK_DEADLOCK FALSE
